@@ -540,3 +540,75 @@ def G7_api_contract_pitfalls(repo, clause, scope=ALL_LIB):
                       len(fns), counts["bisect"], counts["span"], counts["cache"], counts["truth"]),
                   construct="api contract inventory", slot="inventory"))
     return obs
+
+
+def G10_defined_before_use(repo, clause, scope=ALL_LIB):
+    """A local name is read only where at least one of its assignments can reach (reaching definitions over the statement CFG).  A read that NO
+    assignment reaches - typically after two statements were exchanged or a line was moved above the one that defines its input - raises
+    UnboundLocalError on every execution of that path; in code the tests never run this passes unnoticed."""
+    import builtins
+    obs = []
+    fns = _scope_fns(repo, scope)
+    n_uses = 0
+    for fn in fns:
+        assigned = set()
+        for n in fn.own_nodes():
+            if isinstance(n, ast.Name) and isinstance(n.ctx, ast.Store):
+                assigned.add(n.id)
+        # names bound by comprehensions / lambdas / nested defs / imports / with-as / except-as are not tracked by the statement-level analysis
+        skip = set(fn.params)
+        for n in fn.own_nodes():
+            if isinstance(n, (ast.ListComp, ast.SetComp, ast.DictComp, ast.GeneratorExp)):
+                for g in n.generators:
+                    for y in ast.walk(g.target):
+                        if isinstance(y, ast.Name):
+                            skip.add(y.id)
+            elif isinstance(n, ast.Lambda):
+                skip |= {a.arg for a in n.args.args}
+            elif isinstance(n, (ast.FunctionDef, ast.AsyncFunctionDef, ast.ClassDef)):
+                skip.add(n.name)
+            elif isinstance(n, (ast.Import, ast.ImportFrom)):
+                skip |= {(a.asname or a.name).split(".")[0] for a in n.names}
+            elif isinstance(n, ast.ExceptHandler) and n.name:
+                skip.add(n.name)
+            elif isinstance(n, ast.With):
+                for it in n.items:
+                    if it.optional_vars is not None:
+                        for y in ast.walk(it.optional_vars):
+                            if isinstance(y, ast.Name):
+                                skip.add(y.id)
+            elif isinstance(n, (ast.Global, ast.Nonlocal)):
+                skip |= set(n.names)
+            elif isinstance(n, ast.NamedExpr) and isinstance(n.target, ast.Name):
+                skip.add(n.target.id)
+        outer = fn.outer
+        while outer is not None:
+            skip |= set(outer.params) | {y.id for y in outer.all_nodes() if isinstance(y, ast.Name) and isinstance(y.ctx, ast.Store)}
+            outer = outer.outer
+        cand = assigned - skip - set(dir(builtins))
+        if not cand:
+            continue
+        bad = None
+        for u in fn.own_nodes():
+            if isinstance(u, ast.Name) and isinstance(u.ctx, ast.Load) and u.id in cand:
+                st = fn.stmt_of(u)
+                if st is None:
+                    continue
+                # uses inside nested scopes (lambda / comprehension bodies) are evaluated later: only direct statement-level reads are judged
+                if any(isinstance(a, (ast.Lambda, ast.FunctionDef)) for a in fn.ancestors(u) if a is not fn.node):
+                    continue
+                n_uses += 1
+                try:
+                    ds = fn.rd.defs_of_use(u)
+                except Exception:
+                    continue
+                # an augmented assignment / loop both reads and writes: reaching defs of the statement itself are computed at entry, fine
+                if not ds and fn.cfg.reaches(fn.cfg.ENTRY, st):
+                    bad = (u, st)
+                    break
+        obs.append(Ob("G10", clause, fn, bad[1] if bad else fn.node, bad is None,
+                      "every read of a local in %s is reached by an assignment%s" % (fn.qualname, "" if bad is None else
+                                                                                    " -- NOT `%s` in `%s`: no assignment of it can reach this statement (UnboundLocalError whenever it runs)" % (bad[0].id, ast.unparse(bad[1]).splitlines()[0][:60])),
+                      construct=None if bad else "def %s" % fn.name, slot="defined-before-use:%s" % fn.qualname, positive=True))
+    obs.append(Ob("G10", clause, fns[0], fns[0].node, True, "%d functions in scope, %d reads of locals inspected" % (len(fns), n_uses), construct="use-before-definition inventory", slot="inventory"))
+    return obs
